@@ -10,10 +10,16 @@
     combinators return exactly the item values, the returned lexer delivers the abort token next
     (or nothing), and nothing is reported, with or without a sink: the stabilize / recover_default /
     up_to wrappers and the trailing-item probe are transparent on that path ([C11_list_ok]).
-    Partial: the segment structure on MALFORMED input (one entry per separator-delimited segment, the value or
-    the placeholder, one error per bad segment with its span inside the segment, the returned
-    lexer's next token) is decided by the correspondence run and the python segment oracle only. *)
-From Tephra Require Import MetricsSpec CLexer LexerFacts Run Peg RunCore RunList RunListOk.
+    On ARBITRARY input with a sink (RunListSeg): [seg_list] is the segment-by-segment reading of a
+    token list (good segment: the item's value; bad segment: the placeholder, ONE error, resume at the
+    first separator / abort token at or after the segment's start, or swallow the rest when there is
+    none; the upper bound stops the list where it stands; an abort token or the end ends it); every
+    token list has such a reading; the list combinators return exactly its entries, a lexer delivering
+    exactly what it leaves, and a sink log that grew by exactly one error per bad segment plus the
+    count error when there are fewer than [lo] entries ([C11_segments_*]).
+    Partial: WHERE in the segment the reported error's span lies is decided by the correspondence run
+    and the python segment oracle (the leaf errors' spans are C13's theorems). *)
+From Tephra Require Import MetricsSpec CLexer LexerFacts Run Peg RunCore RunRecover RunList RunListOk RunListSeg.
 
 Theorem C11_loop_exits :
   forall runf n hi ab dflt item probe sepp c vals lx st k,
@@ -97,3 +103,82 @@ Example C11_example :
   end.
 Proof. vm_compute. repeat split. Qed.
 Print Assumptions C11_example.
+
+(** * Arbitrary input, with a sink: segment by segment *)
+
+Theorem C11_segments_list_bounded_default :
+  forall m, 1 <= tabw m -> forall t, wf_text t ->
+  forall a sep ab lo hi f0 F c lx ys st vs n s2,
+  F = S (S (S f0)) -> hi <> Some 0 -> (forall h, hi = Some h -> lo <= h) ->
+  in_core a = true -> (forall x r, in_kinds ab (e_tok x) = true -> peg a (x :: r) = Some PFail) ->
+  gdepth a < f0 -> has_sink c = true -> Inv m t lx ys -> c_rec lx = None ->
+  seg_list a sep ab VDflt hi 0 (kept (c_filter lx) ys) vs n s2 -> 2 * length (kept (c_filter lx) ys) + 2 < F ->
+  exists lx' ys' errs, Inv m t lx' ys' /\ c_filter lx' = c_filter lx /\ kept (c_filter lx) ys' = s2 /\ length errs = n
+    /\ run (S F) (GListBDef lo hi a sep ab) lx c st = (ROk (VList vs) lx', list_store c lo hi st errs vs lx').
+Proof. exact list_bounded_default_seg. Qed.
+Print Assumptions C11_segments_list_bounded_default.
+
+Theorem C11_segments_list_bounded :
+  forall m, 1 <= tabw m -> forall t, wf_text t ->
+  forall a sep ab lo hi f0 F c lx ys st vs n s2,
+  F = S (S (S f0)) -> hi <> Some 0 -> (forall h, hi = Some h -> lo <= h) ->
+  in_core a = true -> (forall x r, in_kinds ab (e_tok x) = true -> peg a (x :: r) = Some PFail) ->
+  S (gdepth a) < f0 -> has_sink c = true -> Inv m t lx ys -> c_rec lx = None ->
+  seg_list (GSomeOf a) sep ab VNone hi 0 (kept (c_filter lx) ys) vs n s2 -> 2 * length (kept (c_filter lx) ys) + 2 < F ->
+  exists lx' ys' errs, Inv m t lx' ys' /\ c_filter lx' = c_filter lx /\ kept (c_filter lx) ys' = s2 /\ length errs = n
+    /\ run (S F) (GListB lo hi a sep ab) lx c st = (ROk (VList vs) lx', list_store c lo hi st errs vs lx').
+Proof. exact list_bounded_seg. Qed.
+Print Assumptions C11_segments_list_bounded.
+
+(** list / list_default are the instances lo = 0, hi = None of the bounded combinators *)
+Theorem C11_unbounded_are_instances :
+  forall f a sep ab lx c st,
+  run (S f) (GList a sep ab) lx c st = run (S f) (GListB 0 None a sep ab) lx c st /\
+  run (S f) (GListDef a sep ab) lx c st = run (S f) (GListBDef 0 None a sep ab) lx c st.
+Proof. intros. split; reflexivity. Qed.
+Print Assumptions C11_unbounded_are_instances.
+
+(** never more errors than entries, never more entries than the upper bound *)
+Theorem C11_segment_reading_facts :
+  forall a sep ab dflt hi cnt s vs n s2, seg_list a sep ab dflt hi cnt s vs n s2 ->
+  n <= length vs /\ (forall h, hi = Some h -> cnt < h -> cnt + length vs <= h).
+Proof. intros a sep ab dflt hi. exact (proj1 (seg_list_facts a sep ab dflt hi)). Qed.
+Print Assumptions C11_segment_reading_facts.
+
+(** every token list has a segment reading: the theorems above apply to every input *)
+Theorem C11_segment_reading_exists :
+  forall a sep ab dflt hi, in_core a = true ->
+  forall s cnt, exists vs k s2, seg_list a sep ab dflt hi cnt s vs k s2.
+Proof. intros a sep ab dflt hi Ha s cnt. exact (proj2 (seg_reading_exists a sep ab dflt hi Ha (length s)) s (le_n _) cnt). Qed.
+Print Assumptions C11_segment_reading_exists.
+
+(** concrete: list_default(one a, ',', [';']) on "a,b b,a;" with a sink: three entries, the middle
+    one the placeholder, exactly one error, the lexer in front of ';' *)
+Example C11_malformed_example :
+  let t := [Ch 1 1 1; Ch 1 1 13; Ch 1 1 2; Ch 1 1 6; Ch 1 1 2; Ch 1 1 13; Ch 1 1 1; Ch 1 1 14] in
+  match c_with_filter (c_new Plain t) (Some (FDrop [KWs])) with
+  | Ok lx => match run 40 (GListDef (GOne KA) KComma [KSemi]) lx (ctx_new true) (mkstore [] []) with
+             | (ROk (VList l) lx', st) =>
+               l = [VTok (mktok KA 0); VDflt; VTok (mktok KA 0)] /\ length (log st) = 1 /\ byte (c_cursor_pos lx') = 7
+             | _ => False
+             end
+  | _ => False
+  end.
+Proof. vm_compute. repeat split. Qed.
+Print Assumptions C11_malformed_example.
+
+(** the same input as a segment reading *)
+Example C11_seg_list_example :
+  let e k : entry := (mktok k 0, pos_zero, pos_zero, Plain) in
+  seg_list (GOne KA) KComma [KSemi] VDflt None 0
+    [e KA; e KComma; e KB; e KB; e KComma; e KA; e KSemi]
+    [VTok (mktok KA 0); VDflt; VTok (mktok KA 0)] 1 [e KSemi].
+Proof.
+  cbv zeta. eapply sl_good; [reflexivity|reflexivity|reflexivity|].
+  eapply sn_sep; [reflexivity|reflexivity|reflexivity|].
+  eapply sl_bad; [reflexivity|left; reflexivity|reflexivity|].
+  eapply sn_sep; [reflexivity|reflexivity|reflexivity|].
+  eapply sl_good; [reflexivity|reflexivity|reflexivity|].
+  apply sn_abort; reflexivity.
+Qed.
+Print Assumptions C11_seg_list_example.
